@@ -17,7 +17,7 @@ ALT_C_BC = [[{"cls": "C", "bs": 1}], [{"cls": "B", "bs": 1}, {"cls": "C", "bs": 
 ALL_FAULTS = ["sampler", "model", "loss"]
 
 BASE = dict(lineup=LU["AB"], alts=[], kind="rr", E=2, callsizes=[1, 2], maxbatches=3, maxcalls=3, lossvals=[6],
-            convon=False, verboses=[False], savings=[True], njobs=[1], faultsat=[], restore=False)
+            convon=False, verboses=[False], savings=[True], njobs=[1], faultsat=[], restore=False, burn=None)
 SWITCHES = dict(BreakOnConverged=True, CkptBeforeBreak=True, SessionFinally=True, SeedOnlyAtZero=True,
                 PersistTable=True, SeedsInParent=True)
 COMMON_INV = ["TypeOK", "Aligned", "Truthful", "BatchesConsecutive", "LabelNamesProducer", "NoThreadLeft"]
@@ -38,6 +38,8 @@ _c01 = dict(lineup=LU["ABA"], callsizes=[1, 2, 3], maxcalls=1, verboses=[True, F
 _i01 = COMMON_INV + ["ObservableIsRef", "NoCtorRoot", "RoundRobin"]
 _add("MC_C01", "mc", "C01: one observable outcome per configuration whatever njobs / verbose / saving / completion order", _c01, inv=_i01)
 _add("MC_C01_thorough", "mc", "C01 thorough: 4 batches, E = 3", {**_c01, "E": 3, "maxbatches": 4, "callsizes": [1, 2, 3, 4]}, inv=_i01)
+_add("MC_C01_burn", "mc", "C01 whatever the seed cascade takes from the calibrator's generator (here: nothing, the code takes one draw per sampler)",
+     {**_c01, "burn": 0}, inv=_i01)
 _add("MC_C01_mut", "mut", "design mutant: seeds drawn inside the worker -> outcome depends on completion order", _c01,
      dict(SeedsInParent=False), inv=["ObservableIsRef"])
 # ---- C02 ----
@@ -114,4 +116,6 @@ _add("Gen_C18", "gen", "set_samplers / restore / calls",
 def config(name: str) -> dict:
     c = dict(BASE)
     c.update(TABLE[name][2])
+    if c.get("burn") is None:
+        c["burn"] = len(c["lineup"])        # the code: one draw per sampler
     return c
